@@ -288,6 +288,8 @@ class Gen(object):
         n = self.some(self.m.nodes)
         if l is None or n is None:
             return None
+        if self.rng.chance(0.25):
+            return {'op': 'reverse_link', 'link': l}     # wntr.morph.reverse_link: both ends reassigned through the setters
         return {'op': 'set_end', 'link': l, 'which': self.rng.pick(['start', 'end']), 'node': n}
 
     def op_set_ref(self):
